@@ -334,9 +334,11 @@ package ledger
 //@ declare chartAccepts(c ChartOfAccounts, addr string) bool
 //@ function postingAccepted(c ChartOfAccounts, p Posting) bool = chartAccepts(c, p.Source) && chartAccepts(c, p.Destination)
 
+//@ declare chartAccount(c ChartOfAccounts, addr string) *ChartAccount
 //@ assumed func (c *ChartOfAccounts) FindAccountSchema(account string) (r *ChartAccount, err error)
 //@   ensures (err == nil) == chartAccepts(deref(c), account)
 //@   ensures (err == nil) == (r != nil)
+//@   ensures r == chartAccount(deref(c), account)
 
 //@ func (c *ChartOfAccounts) ValidatePosting(posting Posting) (err error)
 //@   property C29
@@ -361,3 +363,16 @@ package ledger
 //@     invariant defaultMetadata != nil
 //@     invariant forall k string :: {has(defaultMetadata, k)} has(defaultMetadata, k) == (vk[k] && has(c.Metadata, k) && c.Metadata[k].Default != nil)
 //@     invariant forall k string :: {defaultMetadata[k]} has(defaultMetadata, k) ==> defaultMetadata[k] == deref(c.Metadata[k].Default)
+
+// AccountsWithDefaultMetadata: the closure mapped over the involved accounts computes, for each address on its own,
+// the account to upsert and the chart's default metadata for that address (none for an address the chart rejects).
+// collections.Map / slices.Sort / slices.Compact (generic library code) are not modelled: the contract is on the closure.
+//@ func (tx *Transaction) AccountsWithDefaultMetadata(schema *Schema, accountMetadata map[string]metadata.Metadata) (r []AccountWithDefaultMetadata)
+//@   property C29
+//@   lit 1 (a):
+//@     property C29
+//@     ensures a.Account != nil && a.Account.Address == address && a.Account.Metadata == accountMetadata[address] && a.DefaultMetadata != nil
+//@     ensures (schema == nil || !chartAccepts(schema.Chart, address)) ==> forall k string :: {has(a.DefaultMetadata, k)} !has(a.DefaultMetadata, k)
+//@     ensures schema != nil && chartAccepts(schema.Chart, address) ==> forall k string :: {has(a.DefaultMetadata, k)} has(a.DefaultMetadata, k) == (has(chartAccount(schema.Chart, address).Metadata, k) && chartAccount(schema.Chart, address).Metadata[k].Default != nil)
+//@     ensures schema != nil && chartAccepts(schema.Chart, address) ==> forall k string :: {a.DefaultMetadata[k]} has(a.DefaultMetadata, k) ==> a.DefaultMetadata[k] == deref(chartAccount(schema.Chart, address).Metadata[k].Default)
+//@   end
